@@ -147,6 +147,15 @@ claimed["C12"] = dict(
     design="5 C12", technique="bounded symbolic execution of go/ssa + SMT; exhaustive shape sequences x pool choices by decision search; native replay",
     note="Concurrent mixes of requests are not decided by this check.")
 
+claimed["C18"] = dict(
+    text="Three obligations by bounded symbolic execution of the real clientip package: (a) for every IPv4 and IPv6 address "
+         "(symbolic 32/128-bit value through the real net.IPNet.Contains) membership in the default / optional range groups "
+         "implies membership in an independent list of non-globally-routable ranges; (b) for header lists built from an "
+         "entry catalogue, each strategy returns exactly the designated entry or an error; (c) for the rightmost "
+         "strategies an arbitrary attacker prefix of n bytes (full alphabet, commas included) never changes the result. "
+         "The crash monitor shows no reachable panic on these inputs. The IP-literal grammar itself is not symbolic.",
+    design="5 C18", technique=T)
+
 reasons = {}
 
 ids = [json.loads(l)["id"] for l in open("/verif/properties.jsonl")]
